@@ -203,10 +203,16 @@ def gen_purity(rng, sol, apis=('cxx',), variant='exc', nev=10, noise=25, reverse
                 L.append(['setv', p, 'cxx', k, len(vecs[k])] + [hexf(v) for v in vecs[k]])
         return L
 
+    last_entry = {}
+
     def run_evals(order, h):
         L = [['select', 'd', 'cxx', h], ['select', 'ld', 'cxx', h]]
-        for (p, fn, sig, pt, di, cbk) in order:
+        # first, per precision, the evaluation made last (same evaluator, same point) -- now with whatever
+        # parameters / handle are current: a cache keyed on the point alone answers with the old value
+        lead = [last_entry[p] for p in ('d', 'ld') if p in last_entry]
+        for (p, fn, sig, pt, di, cbk) in lead + list(order):
             L.append(eval_line(p, pick_api(lrng, p, apis, fn, sig), fn, sig, pt, di, cbk))
+            last_entry[p] = (p, fn, sig, pt, di, cbk)
         return L
 
     def sweeps():
@@ -552,7 +558,12 @@ def gen_values(rng, sol, precs=('d', 'ld'), nassign=2, npts=3, evaluators=None, 
         pts = []
         # first, the evaluations of the previous assignment once more at the SAME points (new parameters): a
         # cache keyed on the point, or a value computed once and kept, shows up against the oracle
-        pts += ([last_pts[-1]] + [x for x in last_pts[:-1] if rng.random() < 0.5]) if last_pts else []
+        if last_pts:
+            lf, ls, lpt, ldi = last_pts[-1]
+            pts.append(last_pts[-1])
+            # ... and every other evaluator of the same arity at that very point
+            pts += [(fn, sig, lpt, ldi) for fn, sig in caps if sig == ls and fn != lf]
+            pts += [x for x in last_pts[:-1] if rng.random() < 0.3]
         for _ in range(npts):
             order = list(caps); rng.shuffle(order)
             for fn, sig in order:
